@@ -11,6 +11,7 @@ import common
 import meta
 import popgen
 import t3
+import t4
 
 
 def node_purity_search(r, date, df):
@@ -131,6 +132,7 @@ def run(tier: str) -> int:
     common.build_and_audit(r, ["C04", "C04Sim", "T3"], leanchecker=not quick)
     rnd = common.rng("C04")
     t3.run_t3(r, 1000 * common.seed() + 4, 40 if quick else 600)
+    t4.run_t4_quick(r, common.rng("C04-T4"), quick, with_cut=True)
     spec_source_search(r, rnd)
     for date in (popgen.DATES_QUICK if quick else popgen.DATES_2015):
         nodes = popgen.computed_nodes(date)
